@@ -40,7 +40,13 @@ CFG = {
             "6 layout families by case index: classic table (subsection cuts 0-3, three entry terminators, leading zeros) x2, cross-reference stream "
             "(w0 0-2, extra widths up to 4 bytes, /Index partition or omitted, optional Flate stored blocks, optional PNG-Up predictor, rotated dictionary "
             "order) x2, hybrid (table + /XRefStm, hidden generation 65535), mixed; with stream/hybrid layouts about half of the eligible objects go into "
-            "1-2 object streams (optionally Flate'd, gaps of white space between members); every 4th document again with the offsets of two in-use "
+            "1-2 object streams (optionally Flate'd, gaps of white space between members); every 3rd case index additionally a purpose-built `sys` document (plain objects, streams with direct / backward / forward referenced /Length, "
+            "an object stream where the layout allows) cycling through table / stream / hybrid x 8 identity-mismatch corruptions (offsets exchanged: two plain "
+            "objects; a direct, backward, forward /Length stream and a plain object; two forward /Length streams (second pass only); an object listed under an "
+            "unused number: forward /Length stream (second pass only), plain object, backward /Length stream) - all must be rejected - plus the uncorrupted "
+            "control that must load exactly; an ACCEPTED load of a corrupted (mut) file is checked from the bytes alone: every in-use entry of the newest "
+            "section, when that is a classic table read by position, must be defined and have n g obj at its offset (class accepted-with-wrong-object-at-entry); "
+            "every 4th document again with the offsets of two in-use "
             "entries exchanged (must be rejected); every 2nd with one corruption (truncate, alter/delete/insert a byte, replace a number by an extreme "
             "one, cut the middle) judged for correspondence and no panic. Oracle = DocSpec.resolve on what the encoder wrote (never the model); it also "
             "re-derives the file from the seed and compares the bytes. non-trivial = document/history of >= 300 bytes, any mismatch or corpus case, a "
